@@ -127,6 +127,7 @@ func runC12(env *Env) {
 		}
 	}
 	twoTokensOneSubProcess(env, rep, "C12-inline", 12)
+	eventsBeforeEntering(env, rep, "C12-inline")
 	// a host that takes its time per trace, and content that ends in a burst of traces (24 pass-through gateways behind
 	// the task, two levels of sub-process): what happens inside is reported before the parent's token goes on — every
 	// inner trace and the sub-processes' landmarks precede the parent's leave and the instance's cease-flow trace
@@ -196,6 +197,89 @@ func runC12(env *Env) {
 }
 
 // twoTokensOneSubProcess (shared by C12 and C02)
+// events delivered to an instance while its token still waits in front of the sub-process (nobody inside listens, the
+// events concern nobody): wrapped or not, every delivery returns promptly, the task behind is requested when the one in
+// front is answered, and the instance completes — a sub-process that is not entered yet takes no part in anything
+func eventsBeforeEntering(env *Env, rep *Report, key string) {
+	for _, levels := range []int{0, 1, 2} {
+		for _, nev := range []int{2, 9, 40} {
+			if rep.Saturated() {
+				return
+			}
+			cs := fmt.Sprintf("start -> T1 -> [T2 in %d level(s) of sub-process] -> end; %d signals delivered while T1 is pending", levels, nev)
+			env.Current(cs)
+			body := &Prog{nflow: 300}
+			body.Node("start", "bs")
+			body.Node("task", "T2")
+			body.Node("end", "be")
+			body.Flow("bs", "T2", "")
+			body.Flow("T2", "be", "")
+			for l := 1; l < levels; l++ {
+				w := &Prog{nflow: 300 + 10*l}
+				w.Node("start", fmt.Sprintf("ws%d", l))
+				w.Node("sub", fmt.Sprintf("W%d", l)).Sub = body
+				w.Node("end", fmt.Sprintf("we%d", l))
+				w.Flow(fmt.Sprintf("ws%d", l), fmt.Sprintf("W%d", l), "")
+				w.Flow(fmt.Sprintf("W%d", l), fmt.Sprintf("we%d", l), "")
+				body = w
+			}
+			p := &Prog{}
+			p.Node("start", "start")
+			p.Node("task", "T1")
+			p.Flow("start", "T1", "")
+			if levels == 0 {
+				p.Node("task", "T2")
+				p.Flow("T1", "T2", "")
+				p.Node("end", "end")
+				p.Flow("T2", "end", "")
+			} else {
+				p.Node("sub", "S").Sub = body
+				p.Flow("T1", "S", "")
+				p.Node("end", "end")
+				p.Flow("S", "end", "")
+			}
+			defs, err := ParseDefs(p.XML(`<bpmn:signal id="noise" name="noise"/>`))
+			must(err)
+			in, err := StartInst(defs, InstOpt{})
+			must(err)
+			rep.Evaluations++
+			rep.Nontrivial++
+			rep.Count("events_before_entering")
+			t1 := in.WaitTask("T1", tmoStep)
+			if t1 == nil {
+				rep.Violate(key, cs, "T1 not requested; log: "+logString(in.Log()))
+				in.Close()
+				continue
+			}
+			delivered := make(chan int, 1)
+			go func() {
+				for k := 0; k < nev; k++ {
+					in.Signal("noise")
+				}
+				delivered <- nev
+			}()
+			select {
+			case <-delivered:
+			case <-time.After(tmoStep):
+				rep.Violate(key, cs, fmt.Sprintf("delivering %d signals to the instance did not return within %v while the token waits in front of the sub-process; log: %s", nev, tmoStep, logString(in.Log())))
+				t1.Do() // let the deliverer go
+				in.Close()
+				continue
+			}
+			t1.Do()
+			if !in.Answer("T2", tmoStep) {
+				rep.Violate(key, cs, "T2 was not requested after T1 was answered; log: "+logString(in.Log()))
+				in.Close()
+				continue
+			}
+			if !in.WaitCease(tmoStep) {
+				rep.Violate(key, cs, "the instance did not complete; log: "+logString(in.Log()))
+			}
+			in.Close()
+		}
+	}
+}
+
 func twoTokensOneSubProcess(env *Env, rep *Report, key string, rounds int) {
 	// two tokens in one sub-process at the same time (a fork leads into it twice): the activations run one after
 	// the other, each runs the content, each hands its token back, and the instance completes only after both
